@@ -22,6 +22,62 @@ func runC19(cfg *config) *Report {
 		desc string
 	}
 	var cases []kase
+	now := today()
+	total := 0
+	flush := func() {
+		var ops []string
+		type res struct{ off, on string }
+		results := make([]res, len(cases))
+		for i, c := range cases {
+			setFRB(false)
+			f0, e0, p0 := realRead(c.in, c.enc, 1<<22)
+			setFRB(true)
+			f1, e1, p1 := realRead(c.in, c.enc, 1<<22)
+			setFRB(false)
+			if p0 != nil || p1 != nil {
+				rep.violate(Violation{Key: "C19:reader-panic", What: fmt.Sprint("Reader panicked: ", p0, p1), Replay: map[string]any{"bytes": hx(c.in), "enc": c.enc.String()}})
+			}
+			results[i] = res{canonErr(e0) + " # " + dumpFile(&f0), canonErr(e1) + " # " + dumpFile(&f1)}
+			ops = append(ops, fmt.Sprintf("read\t%s\t%s\t0\t%s\t%s", b01(c.enc.LP), b01(c.enc.EBCDIC), now, hx(c.in)),
+				fmt.Sprintf("read\t%s\t%s\t1\t%s\t%s", b01(c.enc.LP), b01(c.enc.EBCDIC), now, hx(c.in)))
+		}
+		got, err := leanParallel(cfg.driver, ops, runtime.NumCPU())
+		if err != nil {
+			fatal("driver: %v", err)
+		}
+		for i, c := range cases {
+			rep.Evaluations++
+			rep.CorrOps += 2
+			rep.count("enc:" + c.enc.String())
+			rs := results[i]
+			if rs.off != got[2*i] || rs.on != got[2*i+1] {
+				rep.CorrDisagree++
+				which, impl, model := "off", rs.off, got[2*i]
+				if rs.off == got[2*i] {
+					which, impl, model = "on", rs.on, got[2*i+1]
+				}
+				rep.violate(Violation{Key: "C19:corr:read:frb-" + which + ":" + c.enc.String(), What: "model reader and Reader.Read disagree",
+					Replay: map[string]any{"bytes": hx(c.in), "enc": c.enc.String(), "desc": c.desc, "implementation": impl[:min(300, len(impl))], "model": model[:min(300, len(model))]}, NoInput: true})
+			}
+			if len(rs.off) >= 2 && rs.off[:2] == "ok" {
+				rep.nontrivial(string(c.in))
+				rep.count("accepted-with-mode-off")
+				if rs.on != rs.off {
+					kind := "rejected"
+					if rs.on[:2] == "ok" {
+						kind = "decoded-differently"
+					}
+					rep.violate(Violation{Key: "C19:mode-on-" + kind + ":" + c.enc.String(), What: "an input accepted with FRB compatibility mode off is " + kind + " with the mode on (" + c.desc + ")",
+						Replay: map[string]any{"bytes": hx(c.in), "enc": c.enc.String(), "desc": c.desc, "mode_off": rs.off[:min(200, len(rs.off))], "mode_on": rs.on[:min(200, len(rs.on))]}})
+				}
+			}
+			total++
+			if total%4001 == 1 {
+				rep.sample(map[string]any{"enc": c.enc.String(), "desc": c.desc, "mode_off": rs.off[:min(60, len(rs.off))], "mode_on": rs.on[:min(60, len(rs.on))]})
+			}
+		}
+		cases = cases[:0]
+	}
 	for fi := 0; fi < nFiles; {
 		f, err := genFile(r, genOpts{maxCL: 1, maxBundles: 2, maxItems: 2, mutateP: 40})
 		if err != nil {
@@ -90,60 +146,13 @@ func runC19(cfg *config) *Report {
 						cases = append(cases, kase{m, e, fmt.Sprintf("record %s field %s first column = 0x%02X", string(tag), w.Src, b)})
 					}
 				}
-			}
-		}
-	}
-	now := today()
-	var ops []string
-	type res struct{ off, on string }
-	results := make([]res, len(cases))
-	for i, c := range cases {
-		setFRB(false)
-		f0, e0, p0 := realRead(c.in, c.enc, 1<<22)
-		setFRB(true)
-		f1, e1, p1 := realRead(c.in, c.enc, 1<<22)
-		setFRB(false)
-		if p0 != nil || p1 != nil {
-			rep.violate(Violation{Key: "C19:reader-panic", What: fmt.Sprint("Reader panicked: ", p0, p1), Replay: map[string]any{"bytes": hx(c.in), "enc": c.enc.String()}})
-		}
-		results[i] = res{canonErr(e0) + " # " + dumpFile(&f0), canonErr(e1) + " # " + dumpFile(&f1)}
-		ops = append(ops, fmt.Sprintf("read\t%s\t%s\t0\t%s\t%s", b01(c.enc.LP), b01(c.enc.EBCDIC), now, hx(c.in)),
-			fmt.Sprintf("read\t%s\t%s\t1\t%s\t%s", b01(c.enc.LP), b01(c.enc.EBCDIC), now, hx(c.in)))
-	}
-	got, err := leanParallel(cfg.driver, ops, runtime.NumCPU())
-	if err != nil {
-		fatal("driver: %v", err)
-	}
-	for i, c := range cases {
-		rep.Evaluations++
-		rep.CorrOps += 2
-		rep.count("enc:" + c.enc.String())
-		rs := results[i]
-		if rs.off != got[2*i] || rs.on != got[2*i+1] {
-			rep.CorrDisagree++
-			which, impl, model := "off", rs.off, got[2*i]
-			if rs.off == got[2*i] {
-				which, impl, model = "on", rs.on, got[2*i+1]
-			}
-			rep.violate(Violation{Key: "C19:corr:read:frb-" + which + ":" + c.enc.String(), What: "model reader and Reader.Read disagree",
-				Replay: map[string]any{"bytes": hx(c.in), "enc": c.enc.String(), "desc": c.desc, "implementation": impl[:min(300, len(impl))], "model": model[:min(300, len(model))]}, NoInput: true})
-		}
-		if len(rs.off) >= 2 && rs.off[:2] == "ok" {
-			rep.nontrivial(string(c.in))
-			rep.count("accepted-with-mode-off")
-			if rs.on != rs.off {
-				kind := "rejected"
-				if rs.on[:2] == "ok" {
-					kind = "decoded-differently"
+				if len(cases) >= 4000 {
+					flush()
 				}
-				rep.violate(Violation{Key: "C19:mode-on-" + kind + ":" + c.enc.String(), What: "an input accepted with FRB compatibility mode off is " + kind + " with the mode on (" + c.desc + ")",
-					Replay: map[string]any{"bytes": hx(c.in), "enc": c.enc.String(), "desc": c.desc, "mode_off": rs.off[:min(200, len(rs.off))], "mode_on": rs.on[:min(200, len(rs.on))]}})
 			}
 		}
-		if i%4001 == 0 {
-			rep.sample(map[string]any{"enc": c.enc.String(), "desc": c.desc, "mode_off": rs.off[:min(60, len(rs.off))], "mode_on": rs.on[:min(60, len(rs.on))]})
-		}
 	}
+	flush()
 	_ = icl.NewFile
 	return rep
 }
